@@ -9,6 +9,7 @@
 import OQuPyVerif.Model.ProtoQI
 import OQuPyVerif.Model.Tempo
 import OQuPyVerif.Model.ProcessTensor
+import OQuPyVerif.Model.Degeneracy
 open OQuPyVerif OQuPyVerif.Proto OQuPyVerif.PathSum OQuPyVerif.Tempo OQuPyVerif.PT
 
 structure Case where
@@ -22,6 +23,8 @@ structure Case where
   props : List (Array QI)
   tbls : List (Int × Array QI)
   extra : List (List String)
+  north : Array Nat := #[]
+  west : Array Nat := #[]
 
 def lookupTbl (tbls : List (Int × Array QI)) (L : Nat) : Int → Nat → Nat → QI :=
   fun id a b => match tbls.find? (fun t => t.1 == id) with
@@ -40,19 +43,28 @@ def parseCase (ws : List String) : Option Case := do
   let uin ← parseQIs? (← secs[2]?)
   let uout ← parseQIs? (← secs[3]?)
   let props ← ((secs.drop 4).take (2*n)).mapM parseQIs?
-  let rest := secs.drop (4 + 2*n)
+  let rest0 := secs.drop (4 + 2*n)
+  let isKw (s : List String) (kw : String) : Bool := s.head? == some kw
+  let north := ((rest0.find? (isKw · "north")).getD []).drop 1 |>.filterMap String.toNat? |>.toArray
+  let west := ((rest0.find? (isKw · "west")).getD []).drop 1 |>.filterMap String.toNat? |>.toArray
+  let rest := rest0.filter (fun s => !(isKw s "north" || isKw s "west"))
   let tblSecs := rest.takeWhile (fun s => s.head? != some "paths")
   let extra := (rest.dropWhile (fun s => s.head? != some "paths")).map (fun s => s.drop 1)
   let tbls ← tblSecs.mapM (fun s => do
     let id ← (← s[0]?).toInt?
     let arr ← parseQIs? (s.drop 1)
     pure (id, arr))
-  pure { L, n, dkmax, hasAdd, rho0, uin, uout, props, tbls, extra }
+  pure { L, n, dkmax, hasAdd, rho0, uin, uout, props, tbls, extra, north, west }
 
 def Case.P1 (c : Case) : Nat → Nat → Nat → QI := fun k => tab2 c.L (c.props.getD (2*(k-1)) #[])
 def Case.P2 (c : Case) : Nat → Nat → Nat → QI := fun k => tab2 c.L (c.props.getD (2*(k-1)+1) #[])
+/-- with "north"/"west" sections present the tables are read through `uniqueTbl`
+    (the reduced network of `unique=True`) -/
 def Case.I (c : Case) : Nat → Nat → Nat → Nat → QI :=
-  inflOfTables c.dkmax c.hasAdd (lookupTbl c.tbls c.L)
+  if c.north.size == 0 then inflOfTables c.dkmax c.hasAdd (lookupTbl c.tbls c.L)
+  else inflOfTables c.dkmax c.hasAdd
+    (OQuPyVerif.Degeneracy.uniqueTbl c.L (fun a => c.north.getD a 0) (fun a => c.west.getD a 0)
+      (lookupTbl c.tbls c.L))
 
 def runTempo (c : Case) : String :=
   let L := c.L
@@ -108,8 +120,15 @@ def runPtInfl (c : Case) : String :=
     | none => "bad-path")
   " ".intercalate vals
 
+/-- "rowdeg r1 | r2 | …" : rows of rationals -> `rowDegeneracy` -/
+def runRowDeg (ws : List String) : String :=
+  match (sections ws).mapM (fun s => s.mapM parseRat?) with
+  | some rows => " ".intercalate ((OQuPyVerif.Degeneracy.rowDegeneracy rows).map toString)
+  | none => "bad-op"
+
 def step (line : String) : String :=
   match words line with
+  | "rowdeg" :: rest => runRowDeg rest
   | op :: rest =>
     match parseCase rest with
     | some c =>
